@@ -684,6 +684,11 @@ impl Env<'_> {
             if !all.is_empty() {
                 // relations read off the solution itself must be accepted
                 self.accept("rel.any", Some(&with(Any, v, sh, &all)), base)?;
+                if sh == 0 {
+                    let mut p = with(Any, v, 0, &all);
+                    p.plan.relations.iter_mut().flatten().for_each(|r| r.shift_index = None);
+                    self.accept("rel.any.implicit-shift-index", Some(&p), base)?;
+                }
                 self.accept("rel.sequence", Some(&with(Sequence, v, sh, &all)), base)?;
             }
             for (k, (_, id)) in seq.iter().enumerate() {
@@ -703,6 +708,12 @@ impl Env<'_> {
                         for s2 in (0..vt.shifts.len()).filter(|s2| *s2 != sh) {
                             let name = if used(v, s2) { "rel.any-other-shift-used" } else { "rel.any-other-shift-idle" };
                             self.breach(name, &format!("{site} locked to shift {s2}"), far, Some(&with(Any, v, s2, &[id])), base, None)?;
+                            if s2 == 0 {
+                                // the same lock spelled without shiftIndex (documented default: the first shift)
+                                let mut p = with(Any, v, 0, &[id]);
+                                p.plan.relations.iter_mut().flatten().for_each(|r| r.shift_index = None);
+                                self.breach(&format!("{name}.implicit-shift-index"), &format!("{site} locked to the default shift"), far, Some(&p), base, None)?;
+                            }
                         }
                     }
                 }
